@@ -207,7 +207,13 @@ func RunFamily(f *Family, o RunOpts) int {
 	fmt.Printf("%s %s: scenarios=%d states=%d transitions=%d cycles=%d (faulted %d) binds=%d evicts=%d pipelined=%d outcomes=%d depth=%d exhaustive=%v wall=%.1fs\n",
 		f.Property, o.Tier, agg.scenarios, agg.states, agg.transitions, agg.cycles, agg.faultCycles, agg.binds, agg.evicts, agg.pipes,
 		len(agg.outcomes), agg.maxDepth, exhaustive, time.Since(start).Seconds())
-	// vacuity guard
+	// vacuity guards
+	if f.Vacuity != nil {
+		if msg := f.Vacuity(agg.extra); msg != "" {
+			fmt.Fprintf(os.Stderr, "harness error: vacuous exploration: %s\n", msg)
+			return 2
+		}
+	}
 	if agg.cycles == 0 || (agg.binds == 0 && agg.evicts == 0 && agg.pipes == 0) {
 		fmt.Fprintf(os.Stderr, "harness error: vacuous exploration (no decisions)\n")
 		return 2
